@@ -237,7 +237,7 @@ func (b *builder) runWif(c *vrun.Ctx, wt *wifTable, rc rawCase) error {
 	}
 	if (cs.S.Total != 37 && cs.S.Total != 38) && cs.S.Key != "ok" {
 		// the key class is not defined for these lengths: the "ok" row stands for all
-		c.AddTraces(1)
+		c.AddExtra("rows_standing_for_another", 1)
 		return nil
 	}
 	for rep := 0; rep < 3; rep++ {
